@@ -30,12 +30,18 @@ type mode struct {
 	Title  string `json:"title"`
 	Normal bool   `json:"normal"`
 	Start  int64  `json:"start,omitempty"`
+	Desc   string `json:"description,omitempty"`
+	Volt   int    `json:"voltage,omitempty"`  // whole volts
+	Segs   []int  `json:"segments,omitempty"` // magnitude of each segment (whole numbers, non-zero)
 }
 
 func (m mode) proto() *traits.ElectricMode {
-	p := &traits.ElectricMode{Id: m.ID, Title: m.Title, Normal: m.Normal}
+	p := &traits.ElectricMode{Id: m.ID, Title: m.Title, Normal: m.Normal, Description: m.Desc, Voltage: float32(m.Volt)}
 	if m.Start != 0 {
 		p.StartTime = &timestamppb.Timestamp{Seconds: m.Start}
+	}
+	for _, g := range m.Segs {
+		p.Segments = append(p.Segments, &traits.ElectricMode_Segment{Magnitude: float32(g)})
 	}
 	return p
 }
@@ -57,11 +63,20 @@ func showMode(p *traits.ElectricMode) string {
 	if p.Normal {
 		n = "1"
 	}
+	volt := strconv.FormatFloat(float64(p.Voltage), 'f', -1, 32)
+	segs := "-"
 	extra := ""
-	if p.Description != "" || p.Voltage != 0 || len(p.Segments) != 0 {
-		extra = "+unmodelled-fields"
+	if len(p.Segments) > 0 {
+		xs := make([]string, len(p.Segments))
+		for i, g := range p.Segments {
+			xs[i] = strconv.FormatFloat(float64(g.GetMagnitude()), 'f', -1, 32)
+			if g.GetLength() != nil || g.GetFixed() != 0 || g.GetShape() != nil {
+				extra = "+unmodelled-segment-fields"
+			}
+		}
+		segs = strings.Join(xs, ",")
 	}
-	return "m:" + hexs(p.Id) + ":" + hexs(p.Title) + ":" + n + ":" + st + extra
+	return "m:" + hexs(p.Id) + ":" + hexs(p.Title) + ":" + n + ":" + st + ":" + hexs(p.Description) + ":" + volt + ":" + segs + extra
 }
 
 func (m mode) String() string { return showMode(m.proto()) }
@@ -191,6 +206,7 @@ type world struct {
 	rng     *scriptReader
 	chMu    sync.Mutex
 	changed bool
+	streams *streams
 }
 
 // config is how the model is constructed: NewModel(WithInitialMode(Modes…), WithInitialActiveMode(Active)).
